@@ -45,6 +45,8 @@ struct PropSpec {
 	bool        use_server = true; // stream cases to a persistent child (fresh process for confirmation)
 	int         watchdog_s = 40;
 	std::function<void()> child_init; // optional, runs in the child before exec
+	// optional: a finite sub-space enumerated instead of sampled (--enumerate): returns the cases of this worker's stripe
+	std::function<std::vector<std::string>(int worker, int nworkers, bool thorough)> enumerate;
 };
 
 struct Outcome {
@@ -546,7 +548,8 @@ pbt_main(int argc, char **argv, PropSpec spec)
 	uint64_t    seed  = 1;
 	std::string rhist;
 	std::string out, replay, regress, knownf = "/verif/known_findings.json", replaydir = "/verif/build/replays";
-	int         worker = 0;
+	int         worker = 0, nworkers = 16;
+	bool        enumerate = false;
 	for (int i = 1; i < argc; i++) {
 		std::string a = argv[i];
 		auto        nx = [&]() { return std::string(i + 1 < argc ? argv[++i] : ""); };
@@ -568,6 +571,10 @@ pbt_main(int argc, char **argv, PropSpec spec)
 			rhist = nx();
 		else if (a == "--replaydir")
 			replaydir = nx();
+		else if (a == "--enumerate")
+			enumerate = true;
+		else if (a == "--nworkers")
+			nworkers = atoi(nx().c_str());
 	}
 	Runner R;
 	R.spec   = spec;
@@ -631,12 +638,25 @@ pbt_main(int argc, char **argv, PropSpec spec)
 	    " max_size=" + std::to_string(size) + " max_discard_ratio=100";
 	setenv("RC_PARAMS", params.c_str(), 1);
 	// silence rapidcheck's own report on stdout/stderr a bit: it prints to stderr
-	bool ok = rc::check(spec.id + ": " + spec.rule.substr(0, 60), [&]() {
-		std::string text = spec.gen();
-		bool        held = R.one(text);
-		if (!held)
-			RC_FAIL("violation");
-	});
+	bool ok = true;
+	long enumerated = 0;
+	if (enumerate && spec.enumerate) {
+		// exhaustive tier: the cases are a function of (worker, nworkers, tier) only; the first failing case is the replay file
+		const char *tv = getenv("VERIF_TIER");
+		for (auto &text : spec.enumerate(worker, nworkers, tv != nullptr && strcmp(tv, "thorough") == 0)) {
+			enumerated++;
+			if (!R.one(text)) {
+				ok = false;
+				break;
+			}
+		}
+	} else
+		ok = rc::check(spec.id + ": " + spec.rule.substr(0, 60), [&]() {
+			std::string text = spec.gen();
+			bool        held = R.one(text);
+			if (!held)
+				RC_FAIL("violation");
+		});
 	R.srv_stop();
 	double wall = std::chrono::duration<double>(std::chrono::steady_clock::now() - t0).count();
 
@@ -686,7 +706,7 @@ pbt_main(int argc, char **argv, PropSpec spec)
 	if (!out.empty()) {
 		std::ofstream f(out);
 		f << "{\"property_id\":\"" << spec.id << "\",\"seed\":" << seed << ",\"worker\":" << worker
-		  << ",\"evaluations\":" << R.evaluations << ",\"nontrivial_total\":" << R.nontrivial_total
+		  << ",\"enumerated\":" << enumerated << ",\"evaluations\":" << R.evaluations << ",\"nontrivial_total\":" << R.nontrivial_total
 		  << ",\"inconclusive\":" << R.inconclusive << ",\"unstable_first\":" << R.unstable_first << ",\"wall_s\":" << wall << ",\"ok\":" << (ok ? "true" : "false")
 		  << ",\"rule\":\"" << json_escape(spec.rule) << "\",\"nontrivial_hashes\":[";
 		bool first = true;
